@@ -23,6 +23,6 @@ HistForms == { [vals |-> <<<<"a", "x">>>>, files |-> <<>>],
 
 ASSUME ndJsonSerialize("forms.ndjson", SetToSeq(AllForms))
 
-Obs == [ stream |-> stream, keepHij |-> keepHij, noPre |-> noPre, poolLimit |-> poolLimit, hist |-> hist ]
+Obs == [ stream |-> stream, keepHij |-> keepHij, noPre |-> noPre, poolLimit |-> poolLimit, rmu |-> rmu, hist |-> hist ]
 Emit == ~Terminal \/ PrintT("BEHAVIOUR " \o ToJson(Obs))
 =============================================================================
